@@ -220,6 +220,7 @@ class GhostMtscomp:
         self.sample_rate = sample_rate
 
     def open(self, *a, **k):
+        self.opened_with = (a, k)
         return None
 
 
@@ -243,8 +244,18 @@ def replay_cbin(vals, oid):
                     ok = c.shape == (nstream, 2) == a.shape and c.ns == nstream and abs(c.rl - nstream / c.fs) < 1e-6 and tail is not None and tail.shape[0] == 50 and np.array_equal(tail, a[nstream - 50:, :])
                     if not ok:
                         bad.append({"meta_rate": fs_meta, "ch_rate": ch_rate, "samples_in_stream": nstream, "announced": announced, "ignore_warnings": iw, "cbin_shape": c.shape, "bin_shape": a.shape, "rl": c.rl})
-                    a.close()
                     c.close()
+                    if nstream == 7000 and announced == 9000:
+                        # the header kept in another folder and handed over explicitly (no .ch next to the data)
+                        hd = os.path.join(d, "headers")
+                        os.makedirs(hd)
+                        moved = os.path.join(hd, "session_42.ch")
+                        os.rename(cb[:-4] + "ch", moved)
+                        c2 = spikeglx.Reader(cb, ch_file=moved, ignore_warnings=iw)
+                        if c2.shape != (nstream, 2) or not np.array_equal(c2[nstream - 50:, :], a[nstream - 50:, :]):
+                            bad.append({"explicit_header_in_another_folder": True, "cbin_shape": c2.shape})
+                        c2.close()
+                    a.close()
                 except Exception as e:
                     bad.append({"meta_rate": fs_meta, "ch_rate": ch_rate, "samples_in_stream": nstream, "announced": announced, "ignore_warnings": iw, "raised": repr(e)[:120]})
                 finally:
@@ -263,11 +274,25 @@ def h_cbin(H):
         obj, nbytes, nc, rate, ftsec = sym_reader(it, spikeglx.Reader, ".cbin", 2)
         nstream = z3.Int("nstream")
         it.ctx.assume(nstream >= 1)
-        ch = fsmodel.GhostPath(it.session.ghost_fs, ("data",), "rec.imec0.ap.ch")
+        # the compression header handed to the constructor (ch_file=...) is kept apart from the data: not the file a companion look-up would find
+        ch = fsmodel.GhostPath(it.session.ghost_fs, ("headers",), "session_42.ch")
         obj.attrs["ch_file"] = ch
         ch_rate = z3.Real("ch_sample_rate")
         it.ctx.assume(ch_rate > 0)
-        it.session.contracts[mtscomp.Reader] = lambda it_, a, k: GhostMtscomp((SV(nstream), SV(nc)), SV(ch_rate))
+        made = []
+
+        def mk(it_, a, k):
+            g = GhostMtscomp((SV(nstream), SV(nc)), SV(ch_rate))
+            made.append(g)
+            return g
+
+        def dec(it_, a, k):
+            # mtscomp.decompress(cdata, cmeta): a Reader opened on that pair
+            g = mk(it_, (), {})
+            g.open(*a, **k)
+            return g
+        it.session.contracts[mtscomp.Reader] = mk
+        it.session.contracts[mtscomp.decompress] = dec
         # both settings of ignore_warnings (streaming readers set it): it silences the warning, it must not change what is exposed
         iw = z3.Bool("ignore_warnings")
         obj.attrs["ignore_warnings"] = SV(iw)
@@ -276,6 +301,10 @@ def h_cbin(H):
         ns = term(it.getattr(obj, "ns"))
         it.ctx.oblige("cbin.ns_eq_stream", ns == nstream, "post", "exposed sample count == samples present in the compressed stream")
         it.ctx.oblige("cbin.rl", term(it.getattr(obj, "rl")) == z3.ToReal(nstream) / rate, "post")
+        used = [g.opened_with for g in made if hasattr(g, "opened_with")]
+        hdr = [(a[1] if len(a) > 1 else k.get("cmeta")) for a, k in used]
+        it.ctx.oblige("cbin.opened_with_the_given_header", z3.BoolVal(len(used) == 1 and hdr[0] is ch and used[0][0][0] is obj.file_bin), "post",
+                      "the stream is opened once, on this reader's file, with the compression header handed to the constructor (not with whatever .ch lies next to the data)")
     S.explore(body)
 
 
